@@ -150,6 +150,10 @@ class Truthy:
             return min(ds) if ds else None
         if isinstance(e, ast.NamedExpr):
             return self.d(g, e.value)
+        if isinstance(e, ast.BinOp) and isinstance(e.op, (ast.Add, ast.Mult)):
+            # concatenation / repetition of containers of elements (`ring[k:] + ring[:k]`) is a container of elements
+            ds = [x for x in (self.d(g, e.left), self.d(g, e.right)) if x is not None and x >= 1]
+            return min(ds) if ds else None
         if isinstance(e, ast.Call):
             f = e.func
             if isinstance(f, ast.Name) and self._is_data_func(g, f.id):
